@@ -49,6 +49,12 @@ def cases(draw, tier):
     case = draw(sim_cases(n_markets=(1, 2), index_prob=0, groups=(1, 2), agents_per_group=(1, 4), hft=True, n_sessions=(1, 4),
                           steps=(1, 20) if big else (1, 8), decline_weight=2, probes=True))
     cfg = case["config"]
+    for s_ in cfg["simulation"]["sessions"]:
+        # the deprecated spelling of one of the two renamed keys, or of both (accepted with a warning; same meaning)
+        if draw(st.integers(0, 3)) == 0 and "maxHighFrequencyOrders" in s_:
+            s_["maxHifreqOrders"] = s_.pop("maxHighFrequencyOrders")
+        if draw(st.integers(0, 3)) == 0 and "highFrequencySubmitRate" in s_:
+            s_["hifreqSubmitRate"] = s_.pop("highFrequencySubmitRate")
     # observation points right before every acceptance (executable-state probe)
     cfg["PX"] = {"class": "VProbeEvent", "hooks": [["order", True, None, None, None], ["cancel", True, None, None, None]]}
     cfg["simulation"]["sessions"][0].setdefault("events", []).append("PX")
@@ -130,6 +136,13 @@ def order_check(case):
         raise Violation("C09.normal_all_consulted", f"only {n_full} of {len(A.steps)} steps consulted every normal agent although the cap exceeds their number")
     if len(orders) == 1:
         raise Violation("C09.random_order", f"{n_full} steps consulted the {len(A.normal)} normal agents in the identical order {next(iter(orders))}")
+    # a random permutation, not a random starting point of a fixed cycle: some observed order is not a rotation of another
+    base = next(iter(orders))
+    n_ = len(base)
+    rotations = {base[r:] + base[:r] for r in range(n_)} | {tuple(reversed(base[r:] + base[:r])) for r in range(n_)}
+    if n_ >= 4 and orders <= rotations:
+        raise Violation("C09.random_order", f"over {n_full} steps every one of the {len(orders)} observed consultation orders of the {n_} normal agents is a rotation "
+                                            f"(or mirrored rotation) of {base}: a cyclic walk, not a shuffle (chance under a uniform shuffle < 1e-9)")
     if len(firsts) != len(A.normal):
         raise Violation("C09.random_order", f"over {n_full} steps only agents {sorted(firsts)} were ever consulted first (of {len(A.normal)}); "
                                             f"chance under a uniform shuffle < 1e-6")
